@@ -133,6 +133,7 @@ def install(rec: Rec):
     ForceBias.step = step
 
 
+INTENDED_DELTA: dict = {}  # id(driver) -> (driver, delta its constructor was given); plain ForceBias only
 INTENDED_POWER: dict = {}  # id(driver) -> (driver, the (n,3) power the workload asked for); the bound is judged against what was asked
 
 
@@ -157,7 +158,9 @@ def judge_step(rec, drv, pos0, pos1):
     n = len(drv.atoms)
     m = drv.atoms.get_masses()
     scale = np.power(m.min() / m, 1.0)[:, None] ** power_array(drv)
-    delta = np.broadcast_to(np.asarray(drv.delta, dtype=float), (n, 3))
+    asked = INTENDED_DELTA.get(id(drv))
+    # plain force bias: the delta the driver was constructed with; adaptive: the delta it has adapted to (C18's subject)
+    delta = np.broadcast_to(np.asarray(asked[1] if asked is not None and asked[0] is drv else drv.delta, dtype=float), (n, 3))
     bound = delta * scale
     dx = pos1 - pos0
     slop = 8 * np.spacing(np.maximum(np.abs(pos0), np.abs(pos1))) + 1e-12 * bound
@@ -205,6 +208,7 @@ def make_fb(rng, n, forces, delta, T, power, adaptive=False, masses=None):
         drv = AdaptiveForceBias(atoms, min_delta=lo, max_delta=float(np.max(delta)), temperature=T, seed=seed)
     else:
         drv = ForceBias(atoms, delta=delta, temperature=T, seed=seed)
+        INTENDED_DELTA[id(drv)] = (drv, np.array(delta, dtype=float, copy=True))
     if power is not None:
         drv.masses_scaling_power = power
         INTENDED_POWER[id(drv)] = (drv, intended_power(drv, syms, power))
